@@ -441,12 +441,7 @@ func (m *Machine) valuesEqual(a, b Value, t types.Type) *Term {
 		if x.Len() != y.Len() {
 			return tt.F
 		}
-		xs, ys := m.stringTerms(x), m.stringTerms(y)
-		r := tt.T
-		for i := range xs {
-			r = tt.And(r, tt.Eq(xs[i], ys[i]))
-		}
-		return r
+		return m.bytesEq(m.stringTerms(x), m.stringTerms(y))
 	case Ptr:
 		if b == nil {
 			return tt.Bool(x.IsNil())
